@@ -304,7 +304,7 @@ pub fn gen_multi(rng: &mut Rng, idx: usize, shared_dependency: bool) -> MultiWor
     let named: Vec<&Decl> = entry_decls.iter().filter(|d| d.exported && !d.is_default && type_capable(d)).collect();
     let default: Option<&Decl> = entry_decls.iter().find(|d| d.is_default && type_capable(d));
     let nfiles = pkgs[a].files.len();
-    let mut forms: Vec<usize> = (0..4).filter(|_| shared_dependency || rng.chance(1, 2)).collect();
+    let mut forms: Vec<usize> = (0..5).filter(|_| shared_dependency || rng.chance(1, 2)).collect();
     if forms.is_empty() {
       forms.push(0);
     }
@@ -343,9 +343,40 @@ pub fn gen_multi(rng: &mut Rng, idx: usize, shared_dependency: bool) -> MultiWor
             }));
           }
         }
-        _ => {
+        3 => {
           if let Some(d) = named.last() {
             add.push(Item::ExportFrom { from: from.clone(), names: vec![(d.name.clone(), format!("{}Via{}f{}", d.name, prefixes[a], fi))] });
+          }
+        }
+        _ => {
+          // a name of b imported through a module of a that does nothing but `export *` b; preferably
+          // a name b's entrypoint itself only has through a star re-export
+          let behind_star: Vec<Decl> = pkgs[b].files[0]
+            .items
+            .iter()
+            .filter_map(|it| if let Item::ExportStar { from } = it { file_index(&pkgs[b], 0, from) } else { None })
+            .flat_map(|j| pkgs[b].files[j].items.iter().filter_map(|it| if let Item::Decl(d) = it { Some(d.clone()) } else { None }).collect::<Vec<_>>())
+            .filter(|d| d.exported && !d.is_default && type_capable(d))
+            .filter(|d| !entry_decls.iter().any(|e| e.exported && e.name == d.name))
+            .collect();
+          let pick: Option<Decl> = behind_star.first().cloned().or(named.first().map(|d| (*d).clone()));
+          let path = format!("/via{}_{}.ts", prefixes[b], fi);
+          if let (Some(d), false) = (pick, pkgs[a].files.iter().any(|f| f.path == path)) {
+            let newfi = pkgs[a].files.len();
+            let star = Item::ExportStar { from: from.clone() };
+            pkgs[a].files.push(AFile { path: path.clone(), items: vec![star.clone()] });
+            cross.push((a, newfi, star));
+            let local = format!("{}Through{}f{}", d.name, prefixes[a], fi);
+            add.push(Item::Import { from: format!(".{}", path), names: vec![(d.name.clone(), local.clone())], type_only: rng.chance(1, 2) });
+            add.push(Item::Decl(Decl {
+              name: format!("Uses{}", local),
+              exported: true,
+              is_default: false,
+              kind: DeclKind::Interface { extends: vec![], props: vec![("x".into(), local.clone())] },
+              sig_refs: vec![local],
+              body_refs: vec![],
+              generics: String::new(),
+            }));
           }
         }
       }
@@ -362,6 +393,16 @@ pub fn gen_multi(rng: &mut Rng, idx: usize, shared_dependency: bool) -> MultiWor
 }
 
 impl MultiWorld {
+  /// the same world after an edit of every source of package `a` that leaves its declarations alone
+  pub fn touched(&self, a: usize, stamp: usize) -> MultiWorld {
+    let mut pkgs = self.pkgs.clone();
+    for f in pkgs[a].files.iter_mut() {
+      f.items.retain(|it| !matches!(it, Item::SideEffect(_)));
+      f.items.push(Item::SideEffect(format!("console.log(\"side effect, edit {}\");", stamp)));
+    }
+    MultiWorld { pkgs, cross: self.cross.clone(), top_level: self.top_level.clone() }
+  }
+
   /// the same world with the cross-package items of package `a` removed
   pub fn without_cross_of(&self, a: usize) -> MultiWorld {
     let mut pkgs = self.pkgs.clone();
